@@ -287,7 +287,8 @@ def run_impl(case):
     os.makedirs(wd)
     try:
         paths = _write_files(case['files'], wd)
-        keys = list(case.get('group_by') or DEFAULT_GROUP)
+        import dcmstack.dcmstack as _impl
+        keys = list(case.get('group_by') or _impl.default_group_keys)
         with warnings.catch_warnings():
             warnings.simplefilter('ignore')
             reads = [_read_one(p, keys) for p in paths]
@@ -332,8 +333,8 @@ BAD_CASE = ('{| c_group_by := []; c_close := []; c_files := []; c_lists := [{| p
 def coq_case(case, obs):
     if not isinstance(obs, dict) or 'reads' not in obs:
         return BAD_CASE           # the runner crashed: a guaranteed mismatch
-    gb = case.get('group_by') or DEFAULT_GROUP
-    ct = case.get('close') if case.get('close') is not None else DEFAULT_CLOSE
+    gb = clist(cstr(s) for s in case['group_by']) if case.get('group_by') is not None else 'default_group_keys'
+    ct = clist(cstr(s) for s in case['close']) if case.get('close') is not None else 'default_close_keys'
     lists = []
     for L, o in zip(case['lists'], obs['lists']):
         if 'err' in o:
@@ -350,7 +351,7 @@ def coq_case(case, obs):
         tb = clist('(%s, %s, %s)' % (_cnats(a), cnat(f), 'None' if e is None else '(Some %s)' % _cerr(e)) for a, f, e in o['table'])
         stacks.append('{| s_order := %s; s_warn := %s; s_table := %s; s_obs := %s |}' % (_cnats(S['order']), cbool(S['warn']), tb, ob))
     return ('{| c_group_by := %s; c_close := %s;\n   c_files := %s;\n   c_lists := %s;\n   c_stacks := %s |}'
-            % (clist(cstr(s) for s in gb), clist(cstr(s) for s in ct),
+            % (gb, ct,
                clist(_cread(i, r) for i, r in enumerate(obs['reads'])), clist(lists), clist(stacks)))
 
 
